@@ -96,10 +96,14 @@ def run(tier, seed, build=True):
         if not cfgs:
             raise common.MachineryError("no compressed journal/evtx source obtainable")
         for name, d, srcs in cfgs:
-            for sig in (False, True):
+            # sig: False = no signal; True = SIGINT as an event; "epipe" = no signal, but nobody reads stdout any more (every print fails)
+            for sig in (False, True) + (("epipe",) if name in ("j1", "j1t", "jj") else ()):
                 argfiles = ["a.tar"] if name == "jt" else srcs
-                cfg = sched.Config(name + ("+sigint" if sig else ""), d, ["--color", "never", "-t", "+00:00"] + argfiles, srcs, sigint=sig, hooks=True, postops=True,
-                                   exec_timeout=120)
+                epipe = sig == "epipe"
+                if epipe:
+                    sig = False
+                cfg = sched.Config(name + ("+sigint" if sig else "") + ("+epipe" if epipe else ""), d, ["--color", "never", "-t", "+00:00"] + argfiles, srcs, sigint=sig, hooks=True, postops=True,
+                                   exec_timeout=120, stdout_closed=epipe)
                 x0 = cfg.run([])
                 if x0.trace is None:
                     raise common.MachineryError("default schedule of %s left no trace: rc=%s %r" % (cfg.name, x0.rc, x0.err[-300:]))
@@ -110,6 +114,12 @@ def run(tier, seed, build=True):
                     if tr is None:
                         return ({"symptom": "no-trace", "rc": x.rc}, "execution ended without a scheduler trace (rc=%s, stderr %r)" % (x.rc, x.err[-200:]))
                     oc = tr.get("outcome")
+                    if oc == "killed-by-sigint":
+                        # SIGINT arrived while no handler was installed: the process is gone at once; nothing may be left behind
+                        if x.tmp_left:
+                            return ({"symptom": "tempfile-left", "sigint_delivered": True, "handler_installed": False, "leaked_files": min(len(x.tmp_left), 2)},
+                                    "SIGINT with no handler installed ended the process while temporary file(s) %s existed (events: %s)" % (x.tmp_left, " ".join(tr.get("events", [])[-14:])))
+                        return None
                     if oc != "completed":
                         return ({"symptom": oc, "sigint_delivered": "sigint" in tr.get("events", [])}, "scheduler outcome %s: %s" % (oc, tr.get("what", "")))
                     ev = tr.get("events", [])
@@ -131,7 +141,7 @@ def run(tier, seed, build=True):
                         return ({"symptom": "stdout-differs"}, "stdout differs between signal-free schedules")
                     return None
                 budget = (12000, 45) if tier == "quick" else (300000, 3000)
-                if name != "j1" and tier == "quick":
+                if (name != "j1" or epipe) and tier == "quick":
                     budget = (1500, 12)
                 try:
                     if name in ("j1", "j1t") or tier == "thorough":
@@ -166,7 +176,7 @@ def run(tier, seed, build=True):
                 for feats, what, choices in viols:
                     res.violation(dict(feats, config=name), "%s [config %s]" % (what, cfg.name),
                                   {"engine": "E-SCHED", "property": PROP, "args": cfg.args, "sources": cfg.sources, "config_dir": name, "choices": choices,
-                                   "sigint": sig, "hooks": True, "postops": True, "check_tmp": True})
+                                   "sigint": sig, "hooks": True, "postops": True, "check_tmp": True, "stdout_closed": epipe})
                 res.sample({"config": cfg.name, "argv": cfg.args, "default_schedule_events": x0.trace.get("events")})
     finally:
         shutil.rmtree(work, ignore_errors=True)
@@ -192,7 +202,7 @@ def replay(path, build=True):
         for name, d, srcs in configs(work, "thorough"):
             if name != r["config_dir"]:
                 continue
-            cfg = sched.Config("replay", d, r["args"], r["sources"], sigint=r["sigint"], hooks=True, postops=True, exec_timeout=120)
+            cfg = sched.Config("replay", d, r["args"], r["sources"], sigint=r["sigint"], hooks=True, postops=True, exec_timeout=120, stdout_closed=bool(r.get("stdout_closed")))
             x1 = cfg.run(r["choices"])
             x2 = cfg.run(r["choices"])
             if (x1.trace is None) != (x2.trace is None) or (x1.trace and sched.trace_key(x1.trace) != sched.trace_key(x2.trace)) or x1.tmp_left != x2.tmp_left and False:
